@@ -39,6 +39,8 @@ RULES: Dict[str, Callable] = {
     "R-SETDIM": _cached("R-SETDIM", anchored.run_setdim),
     "R-CLEAN": _cached("R-CLEAN", anchored.run_clean),
     "R-POWER": _cached("R-POWER", anchored.run_power),
+    "R-CARRIER": _cached("R-CARRIER", anchored.run_carrier),
+    "R-PRODAXES": _cached("R-PRODAXES", anchored.run_prodaxes),
     "R-GRAD": _cached("R-GRAD", structure.run_grad),
     "R-ALIGNFN": _cached("R-ALIGNFN", structure.run_alignfn),
     "R-NAMES": _cached("R-NAMES", construct.run_names),
@@ -128,6 +130,7 @@ PLAN: Dict[str, dict] = {
         "uses": [
             G("R-GUARDS", "TypeError for unknown / doubly supplied names dominates evaluation"),
             G("R-TWIN", "the polynomial and the numeric branch of the evaluation loop receive the same operands"),
+            G("R-CARRIER", "the broadcast carrier promotes narrow argument dtypes (value independent of the carrying type)"),
             G("R-UNSIGNED", "no caller value meets an unsanitised uint32 exponent (value independent of the argument's type)", only=in_funcs("call")),
         ],
         "explanation": "call(): branches raising TypeError for an unknown and for a doubly supplied indeterminate exist and every "
@@ -252,6 +255,7 @@ PLAN: Dict[str, dict] = {
             S("R-SIG", "prod/matmul reach a signature-valid reshape"),
             G("R-REG", "add.reduce / add.accumulate / method spellings reach the same function", only=lambda f: any(n in f.function + f.message + f.construct for n in ("sum", "cumsum", "mean", "prod", "diff", "inner", "outer", "matmul", "det", "REDUCE_MAPPINGS", "ACCUMULATE_MAPPINGS"))),
             S("R-KEYS", "result buffers are fully written"),
+            G("R-PRODAXES", "prod over an axis tuple reduces and re-inserts each axis in one traversal"),
         ],
         "explanation": "sum/cumsum/mean dispatch their namesake per aligned key with axis/dtype/keepdims forwarded; diff aligns a, "
                        "prepend and append in one call and writes every key; every numpy call in the call graph of the reductions "
